@@ -7,6 +7,7 @@ import contracts.qap  # noqa: F401
 import contracts.objectives  # noqa: F401
 import contracts.ttp  # noqa: F401
 import bounded.ttp_errors  # noqa: E402
+import bounded.ttp_plan  # noqa: E402
 import bounded.bl_reference  # noqa: E402
 import bounded.objectives_oracle  # noqa: E402
 
@@ -61,6 +62,44 @@ PLANS["C07"] = Plan(
                  "n*D*limits, stated as assumption)", "E1 for the scratch dtype chosen in Errors.__init__"],
 )
 
+PL = "moptipyapps.ttp.plan_length"
+GE = "moptipyapps.ttp.game_encoding"
+PLANS["C08"] = Plan(
+    "C08", "other",
+    functions=[PL + ":game_plan_length"],
+    bounded=[bounded.ttp_plan.harness_c08],
+    explanation="proved: game_plan_length equals the recursive tournament-walk specification (location per day, away venue, "
+                "stay/return for home games, bye penalty, return leg) for every plan with entries in -n..n and every "
+                "non-negative distance matrix; result >= 0; indices in range. bounded: declared upper bound and the bye clause "
+                "on all positions of sampled plans; optimum clause exhaustive over all 12^6 consistent 4-team plans x 7 instances",
+    assumptions=["length accumulator treated as a mathematical integer", "bye clause (Lipschitz lemma over the walk) not proved: bounded"],
+)
+PLANS["C15"] = Plan(
+    "C15", "other",
+    functions=[GE + ":map_games"],
+    bounded=[bounded.ttp_plan.harness_c15],
+    explanation="proved: map_games decodes every game to two different teams in range, places it on the earliest day on which "
+                "both columns are still free (all earlier days blocked, that day free), touches exactly those two cells, drops it "
+                "otherwise; the plan stays mutually consistent, in -n..n, without self-play; all stores fit the plan dtype. "
+                "bounded (exhaustive in n <= 24/40, rounds <= 7/9): search-space composition; multiplicity clause on samples",
+    assumptions=["E1 for the game-plan dtype (holds -n..n)"],
+)
+
+QO = "moptipyapps.qap.objective"
+PLANS["C13"] = Plan(
+    "C13", "proof",
+    functions=[E1 + ":__move_down", E1 + ":__move_left", E1 + ":_decode", E2 + ":__move_down", E2 + ":__move_left",
+               E2 + ":_decode"] + _OBJ + [ER + ":count_errors", PL + ":game_plan_length", GE + ":map_games",
+               "moptipyapps.tsp.tour_length:tour_length", "moptipyapps.tsp.ea1p1_revn:rev_if_not_worse",
+               "moptipyapps.tsp.fea1p1_revn:rev_if_h_not_worse", QO + ":_evaluate"],
+    lemmas=["tri_bound"],
+    explanation="one bounds obligation (-len <= index < len, the exact memory-safety condition of numpy/numba indexing) per "
+                "subscript of every njit kernel, discharged under the pre-conditions that the public spaces and constructors "
+                "establish, together with the loop invariants those obligations rest on",
+    trusted=["pre-conditions = what PackingSpace/decoders, GamePlanSpace.validate (entries in -n..n incl. self-play), "
+             "Permutations and the instance constructors establish (E1, E2)"],
+)
+
 PLANS["C14"] = Plan(
     "C14", "proof",
     functions=[E1 + ":__move_down", E1 + ":__move_left", E1 + ":_decode",
@@ -98,6 +137,20 @@ PLANS["C05"] = Plan(
 
 
 META = {
+    "C13": {"text": "every array subscript of the listed compiled kernels is a proved bounds obligation for all inputs accepted "
+                    "by the public spaces/constructors (the kernels run with boundscheck=False, so no test can observe a "
+                    "violation); slice assignments and reductions included",
+            "note": "kernels not yet under contract are listed in the evidence 'assumptions' (controllers, ode helpers, "
+                    "swap_distance: see DESIGN.md); E1/E2 assumed for the pre-conditions",
+            "technique": "contract-based deductive verification (per-subscript bounds VCs under loop invariants; z3/cvc5)"},
+    "C08": {"text": "game_plan_length proved equal to the tournament-walk model for all plans/matrices; bounds, bye clause and "
+                    "the four-team optimum decided by bounded/exhaustive enumeration with the real kernels",
+            "note": "level 'other': proof + exhaustive enumeration (7 x 12^6 plans) + sampling for the bye clause",
+            "technique": "contract-based deductive verification (recursive spec of the walk) + exhaustive bounded enumeration"},
+    "C15": {"text": "map_games proved: earliest-free-day placement, mutual consistency, no self-play, range, exactly two cells "
+                    "written per game; search-space composition enumerated for all n <= 24 (thorough 40), rounds <= 7 (9)",
+            "note": "level 'other': proof for the decoder + exhaustive enumeration of the two-parameter generator",
+            "technique": "contract-based deductive verification (iteration invariant 'earlier days blocked') + exhaustive enumeration"},
     "C07": {"text": "count_errors proved memory-safe, stateless w.r.t. its scratch arrays, non-negative, and zero only for plans "
                     "in which every team plays every day consistently (all plans, all sizes); the full 'zero iff feasible' and "
                     "the per-rule count are decided exhaustively for all 12^6 four-team plans x constraint settings against an "
